@@ -462,6 +462,16 @@ func c08WorkBytes(job *c08Job, out *c08Out) {
 			}
 		}
 	}
+	// every odd token in every binding position (lambda / func / macro parameters, loop variable, assignment target, ...)
+	odd := []string{"0x", "0b", "0o", "1_", "1__2", ".5_", "1e", "1e+", "1.2.3", "0x1g", "09", "1_.5", `"s"`, "`r`", "'", "@", "..", "...", "nil", "true", "if", "func", "return", "break", "continue",
+		"=>", "1", "1.5", "-1", "(", ")", "[1]", "{}", "//c\n", "/*c*/", "len", "macro", "quote", "9223372036854775808", "1e999", "", "a.b", "a[0]", "a()", "-a", "!a", "a b"}
+	for _, tk := range odd {
+		for _, ctx := range []string{"T => 1", "f = T => 1", "(a, T) => a", "(T, a) => a", "(T) => 1", "(a, T, b) => 1", "func(T) {}", "func f(a, T) {a}", "func T() {}", "macro(T) {T}", "m = macro(a, T) {quote(1)}",
+			"for T = 3 {}", "for T = 1:3 {}", "for T := [1] {}", "T = 1", "T := 1", "T++", "++T", "del(T)", "a.T", "a.T = 1", "{T: 1}", "T(1)", "x => T", "T => T => 1", "(..) => T", "(a, .., T) => 1", "func(a, ..T) {}",
+			"a[T]", "a[T:]", "a[:T]", "[T => 1]", "f(T => 1)", "if T {1}", "return T", "T; T", "T T"} {
+			do(strings.ReplaceAll(ctx, "T", tk))
+		}
+	}
 	for _, p := range progs {
 		for pos := 0; pos <= len(p); pos++ {
 			for _, c := range ins {
